@@ -45,7 +45,7 @@ PS, PU = "src/pyhf/parameters/paramsets.py", "src/pyhf/parameters/utils.py"
 
 # C02.R1 knows the offset bookkeeping as ONE loop in each constructor; R3 (the constant tables of both constraint classes on four
 # interleaved parameter sets) and R9 (the constraint model end to end) decide the same clause from what the constructors compute.
-DEFER = [(["C02.R1"], ["C02.R3", "C02.R9"])]
+DEFER = [(["C02.R1"], ["C02.R3", "C02.R9"], "src/pyhf/constraints.py")]  # the instance in pdf.py (auxdata and its order grow under one guard) keeps its own verdict
 
 
 def run(ctx):
